@@ -530,7 +530,8 @@ def gen_run(rng, tier):
         toks = m.sentence(rng, depth=rng.randint(1, 5))
         if len(toks) > mt:
             toks = toks[: rng.randint(1, mt)]
-        clean = pool.layout_tokens(rng, toks, sc["layout"], fancy=0.2)
+        fancy = 0.5 if sc["layout"] == "comments" else 0.2
+        clean = pool.layout_tokens(rng, toks, sc["layout"], fancy=fancy)
         r = rng.random()
         fired = []
         if r < 0.22:
@@ -542,7 +543,7 @@ def gen_run(rng, tier):
             fired = ["soup"]
         else:
             dt, fired = pool.damage(rng, toks, m, kinds, rng.randint(1, 3))
-            text = pool.layout_tokens(rng, dt, sc["layout"], fancy=0.2)
+            text = pool.layout_tokens(rng, dt, sc["layout"], fancy=fancy)
             if "trunc_char" in fired and text:
                 text = text[: rng.randrange(len(text))]
         cfg = rng.choice(cfgs)
